@@ -283,7 +283,7 @@ def r_no_vote_without_address(ctx):
                                 'and its nextIndex/matchIndex entries')
 def r_observer_bookkeeping(ctx):
     P, R = ctx.P, ctx.R
-    allowed = {'A:' + R.observers, 'A:' + R.connected, 'A:' + R.nextIndex, 'A:' + R.matchIndex}
+    allowed = {'A:' + R.observers, 'A:' + R.connected, 'A:' + R.nextIndex, 'A:' + R.matchIndex, 'A:' + R.serializer}
     n = 0
     for key in ('setOnReadonlyNodeConnectedCallback', 'setOnReadonlyNodeDisconnectedCallback'):
         f = R.slot_methods.get(key)
